@@ -190,6 +190,17 @@ theorem take_length_sub (ts gs : List Nat) (n : Nat) (h : gs.length = n) :
   subst h
   simp
 
+/-- Python's `(ts ++ gs)[:-n] = ts` when `gs` has `n > 0` entries -/
+theorem pyDropLast_append (ts gs : List Nat) (n : Nat) (h : gs.length = n) (hn : 0 < n) :
+    pyDropLast (ts ++ gs) n = ts := by
+  have : n ≠ 0 := by omega
+  unfold pyDropLast
+  rw [if_neg this]
+  exact take_length_sub ts gs n h
+
+/-- `s[:-0]` is empty -/
+theorem pyDropLast_zero (s : List Nat) : pyDropLast s 0 = [] := by simp [pyDropLast]
+
 theorem cscToDense_shape (c : Csc) (n m : Nat) (h : c.shape = [n, m]) :
     (cscToDense c).shape = [n, m] ∧ (cscToDense c).data.length = n * m := by
   simp [cscToDense, h]
@@ -397,5 +408,37 @@ theorem transposeAll_involutive (dt : String) (s : List Nat) (d : List Rat)
     simp only [Option.map_some, Option.getD_some]
     rw [unravel_ravel' _ _ hbr, List.reverse_reverse, ravel_unravel' s k hk]
     simp [List.getD_eq_getElem?_getD, h2]
+
+/-! ## object state and the ASDF layer -/
+
+/-- the property `grid.weights`, unfolded -/
+theorem weightsProperty_run (auto : AutoWeights) (g : Grid) :
+    (Grid.weightsProperty auto).run g =
+      if g.weights.isNull then
+        ((if (auto g.coords).isNull then Tree.num (.int 1) else auto g.coords),
+          { g with weights := if (auto g.coords).isNull then Tree.num (.int 1) else auto g.coords })
+      else (g.weights, g) := rfl
+
+theorem normGridTree_toDict (g : Grid) : normGridTree g.toDict = g.pyWeights.toDict := by
+  obtain ⟨s, c, w⟩ := g
+  simp [normGridTree, Grid.toDict, Grid.pyWeights, Tree.get, lookup, Tree.set, setKey]
+
+theorem normObjTree_field (f : Field) :
+    normObjTree f.toDict = ({ f with grid := f.grid.pyWeights } : Field).toDict := by
+  obtain ⟨v, g⟩ := f
+  simp [normObjTree, Field.toDict, Tree.get, lookup, Tree.set, setKey, normGridTree_toDict]
+
+theorem normObjTree_basis (b : ModeBasis) (g : Grid) (hg : b.grid = some g) (t : Tree)
+    (ht : b.toDict = .ok t) :
+    .ok (normObjTree t) = ({ b with grid := some g.pyWeights } : ModeBasis).toDict := by
+  obtain ⟨tm, og⟩ := b
+  simp only at hg
+  subst hg
+  simp only [ModeBasis.toDict] at ht
+  injection ht with ht
+  subst ht
+  simp [normObjTree, ModeBasis.toDict, ModeBasis.isSparse, Tree.get, lookup, Tree.set, setKey,
+    normGridTree_toDict]
+
 
 end HcipyVerif.Serial
